@@ -67,18 +67,17 @@ def main():
     os.makedirs(simdrv.RUN_DIR, exist_ok=True)
     base = int(os.environ.get("VERIF_SEED", 424242))
     bad = 0
-    for prop in props:
-        target = PROPS[prop]["target"]
+    for prop, target in [(p, t) for p in props for t in [PROPS[p]["target"]] + [e["target"] for e in PROPS[p].get("extra_targets", [])]]:
         ok, _ = simdrv.buildmod.build([target])
         if not ok:
             print("INFRA: build failed for %s" % target)
             return 2
         exe = os.path.join(simdrv.BIN, target)
         for tier in ("quick", "thorough"):
-            a = spread(exe, tier, base, n, 1, prop + tier + "a")
-            b = spread(exe, tier, base, n, 1, prop + tier + "b")
-            c = spread(exe, tier, base, n, 4, prop + tier)
-            d = spread(exe, tier, base, n, 16, prop + tier)
+            a = spread(exe, tier, base, n, 1, target + tier + "a")
+            b = spread(exe, tier, base, n, 1, target + tier + "b")
+            c = spread(exe, tier, base, n, 4, target + tier)
+            d = spread(exe, tier, base, n, 16, target + tier)
             mism = 0
             for idx in range(n):
                 vals = {x.get(idx) for x in (a, b, c, d)}
@@ -97,8 +96,8 @@ def main():
                     rt += 1
                     if rt <= 3:
                         print("  %s %s index %d: batch %s/%s, gen+run %s/%s" % (prop, tier, idx, a[idx][1], a[idx][2], res.get("outcome"), res.get("hash")))
-            print("%s %s: %d indices x 4 executions (1,1,4,16 processes): %d mismatches; %d plan-file round trips: %d mismatches"
-                  % (prop, tier, n, mism, len(sample), rt))
+            print("%s/%s %s: %d indices x 4 executions (1,1,4,16 processes): %d mismatches; %d plan-file round trips: %d mismatches"
+                  % (prop, target, tier, n, mism, len(sample), rt))
             bad += mism + rt
     return 2 if bad else 0
 
